@@ -45,3 +45,109 @@ Print Assumptions c13_ie_decoders_env_independent.
 Theorem c13_no_state_between_calls : writable = [] /\ static_locals = [].
 Proof. split; reflexivity. Qed.
 Print Assumptions c13_no_state_between_calls.
+
+(* ---- purity AT THE LEVEL OF THE TRANSLATED C TEXT (Base/CExpr.v's interpreter, Gen/Sites.v's bodies): memory a routine cannot read cannot influence it.  Every code-level
+   theorem of this development runs a translated body with ONLY the input buffer readable and concludes that the run returns; exec_ext says, once for the whole statement language
+   and every body, fuel, environment and trace, that such a run gives the SAME result in every memory that extends the readable one - in particular in every memory that holds the
+   buffer, whatever lies beyond it (exec_any_surroundings).  The remaining theorems instantiate it: the same conclusions as c06_code_*, c11_code_crc32_*, c02_code_*, c12_code_*
+   with `mem_at a buf` replaced by ANY memory M that agrees with the buffer. ---- *)
+From Coq Require Import String.
+From LW Require Import Base.Bytes Base.CExpr Gen.Sites Spec.CodeSpec Model.TagIter Model.Frame Model.Eapol Proofs.SitesLemmas Proofs.CodeIter Proofs.CodeCRC Proofs.CodeFrame Proofs.CodeEapol Proofs.MemExt Proofs.MemExtUses.
+Local Open Scope string_scope.
+Local Open Scope list_scope.
+Local Open Scope Z_scope.
+
+(* an expression that evaluates with less memory readable evaluates to the same value with more *)
+Theorem c13_code_ceval_ext : forall rho m m',
+  mem_le m m' -> forall e v, ceval rho m e = Some v -> ceval rho m' e = Some v.
+Proof. exact ceval_ext. Qed.
+Print Assumptions c13_code_ceval_ext.
+
+(* THE meta-theorem: a run that ended (returned / fell through / broke; not stuck, not out of fuel) is the same run in every extension of the memory *)
+Theorem c13_code_exec_ext : forall m m' f rho tr s r,
+  mem_le m m' -> exec f m rho tr s = r -> ended r -> exec f m' rho tr s = r.
+Proof. exact exec_ext. Qed.
+Print Assumptions c13_code_exec_ext.
+
+(* the same through the observable outcome (returned value and trace of calls) *)
+Theorem c13_code_observe_ext : forall m m' f rho tr s x,
+  mem_le m m' -> observe (exec f m rho tr s) = Some x -> observe (exec f m' rho tr s) = Some x.
+Proof. exact observe_ext. Qed.
+Print Assumptions c13_code_observe_ext.
+
+(* so a run with only the buffer readable is the run in ANY memory holding the buffer *)
+Theorem c13_code_exec_any_surroundings : forall M a buf f rho tr s r,
+  mem_agrees M a buf -> exec f (mem_at a buf) rho tr s = r -> ended r -> exec f M rho tr s = r.
+Proof. exact exec_any_surroundings. Qed.
+Print Assumptions c13_code_exec_any_surroundings.
+
+(* tag iterator init in any surroundings *)
+Theorem c13_code_tag_iterator_init_any_surroundings : forall M buf start rho,
+  mem_agrees M start buf ->
+  wfbytes buf -> 0 <= start -> start + zlen buf < 2 ^ 62 ->
+  let rho0 := upd (upd rho "tags_start" start) "data_len" (zlen buf) in
+  let run := exec 30 M rho0 [] body_libwifi_tag_iterator_init in
+  match tag_init (rd_strict buf) (zlen buf) with
+  | Done (Err c) => observe run = Some (Some c, [])
+  | Done (Ok it) =>
+      exists rho1, run = Returned (Some 0) rho1 [] /\
+        rho1 "it->tag_header" = start + it_hdr it /\ rho1 "it->tag_data" = start + it_data it /\
+        rho1 "it->_next_tag_header" = start + it_next it /\ rho1 "it->_frame_end" = start + it_end it
+  | _ => False
+  end.
+Proof. exact code_tag_iterator_init_any_surroundings. Qed.
+Print Assumptions c13_code_tag_iterator_init_any_surroundings.
+
+(* tag iterator next in any surroundings *)
+Theorem c13_code_tag_iterator_next_any_surroundings : forall M buf start rho it,
+  mem_agrees M start buf ->
+  wfbytes buf -> 0 < start -> start + zlen buf < 2 ^ 62 ->
+  0 <= it_next it < 2 ^ 62 -> -1 <= it_end it < zlen buf ->
+  let run := exec 30 M (it_env rho start it) [] body_libwifi_tag_iterator_next in
+  match tag_next (rd_strict buf) it with
+  | Done (it', r) =>
+      exists rho1, run = Returned (Some (match r with None => -1 | Some n => n end)) rho1 [] /\ it_fields rho1 start it'
+  | _ => False
+  end.
+Proof. exact code_tag_iterator_next_any_surroundings. Qed.
+Print Assumptions c13_code_tag_iterator_next_any_surroundings.
+
+(* the CRC loop in any surroundings *)
+Theorem c13_code_crc32_any_surroundings : forall M msg start rho,
+  mem_agrees M start msg ->
+  wfbytes msg -> 0 < start -> start + zlen msg < 2 ^ 62 -> zlen msg < 2 ^ 31 ->
+  observe (exec (60 * length msg + 60) M (upd (upd rho "message" start) "message_len" (zlen msg)) []
+                body_libwifi_crc32) = Some (Some (crc32_list msg), []).
+Proof. exact code_crc32_any_surroundings. Qed.
+Print Assumptions c13_code_crc32_any_surroundings.
+
+(* the CRC of a message that sits inside a larger readable buffer *)
+Theorem c13_code_crc32_inside_larger_buffer : forall pre msg post start rho,
+  wfbytes msg -> 0 < start -> start + zlen msg < 2 ^ 62 -> zlen msg < 2 ^ 31 ->
+  observe (exec (60 * length msg + 60) (mem_at (start - zlen pre) (pre ++ msg ++ post))
+                (upd (upd rho "message" start) "message_len" (zlen msg)) [] body_libwifi_crc32) = Some (Some (crc32_list msg), []).
+Proof. exact code_crc32_inside_larger_buffer. Qed.
+Print Assumptions c13_code_crc32_inside_larger_buffer.
+
+(* the classifier in any surroundings *)
+Theorem c13_code_get_wifi_frame_plain_ret_any_surroundings : forall M buf a rho,
+  mem_agrees M a buf ->
+  wfbytes buf -> 0 < a -> a + zlen buf < 2 ^ 62 -> 0 <= rho "ret:malloc" < 2 ^ 62 ->
+  exists v tr,
+    observe (frame_run_in M buf a rho) = Some (Some v, tr) /\
+    (v = -22 <-> frame_refused buf) /\ (v = -22 -> tr = [frame_memset rho]) /\ (v = -22 \/ v = -12 \/ v = 0) /\
+    copies_inside a (a + zlen buf) tr.
+Proof. exact code_get_wifi_frame_plain_ret_any_surroundings. Qed.
+Print Assumptions c13_code_get_wifi_frame_plain_ret_any_surroundings.
+
+(* EAPOL recognition in any surroundings *)
+Theorem c13_code_check_wpa_handshake_any_surroundings : forall M b a hl ty rho,
+  mem_agrees M a b ->
+  wfbytes b -> 0 < a -> a + zlen b < 2 ^ 62 -> hl = 24 \/ hl = 26 -> 0 <= ty <= 3 ->
+  let len := hl + zlen b in
+  let mc := wrap s32 (rho "ret:memcmp") in
+  observe (exec 30 M (frame_env rho ty len hl a) [] body_libwifi_check_wpa_handshake) =
+    Some (Some (if hs_accepts b ty hl len mc then 1 else -22), hs_trace rho b a ty hl len mc).
+Proof. exact code_check_wpa_handshake_any_surroundings. Qed.
+Print Assumptions c13_code_check_wpa_handshake_any_surroundings.
+
